@@ -8,6 +8,9 @@ from typing import Any, Dict, List, Optional
 from . import tlc
 
 VERIF = tlc.VERIF
+# seeded-defect evaluation runs the checks against a scratch tree (VERIF_REPO) and must not clobber the
+# evidence / replay files of the real tree: VERIF_SCRATCH redirects both
+OUT = os.environ.get("VERIF_SCRATCH") or VERIF
 REPO = os.environ.get("VERIF_REPO", "/repo")
 if REPO not in sys.path:
     sys.path.insert(0, REPO)
@@ -79,8 +82,8 @@ class Run:
         if prev:  # same clause on the same input class: counted, one replay file is enough
             prev[0]["count"] += 1
             return
-        os.makedirs(os.path.join(VERIF, "replays"), exist_ok=True)
-        path = os.path.join(VERIF, "replays", "%s-%s-%d.json" % (self.pid, self.tier, len(self.violations)))
+        os.makedirs(os.path.join(OUT, "replays"), exist_ok=True)
+        path = os.path.join(OUT, "replays", "%s-%s-%d.json" % (self.pid, self.tier, len(self.violations)))
         with open(path, "w") as fh:
             json.dump({"property": self.pid, "clause": clause, "signature": sig, "detail": detail}, fh, indent=1, default=str)
         self.violations.append({"clause": clause, "signature": sig, "replay": path, "count": 1})
@@ -124,8 +127,8 @@ class Run:
             "wall_s": round(wall, 2),
             "violations": sum(v["count"] for v in self.violations),
         }
-        os.makedirs(os.path.join(VERIF, "evidence"), exist_ok=True)
-        with open(os.path.join(VERIF, "evidence", self.pid + ".json"), "w") as f:
+        os.makedirs(os.path.join(OUT, "evidence"), exist_ok=True)
+        with open(os.path.join(OUT, "evidence", self.pid + ".json"), "w") as f:
             json.dump(ev, f, indent=1, default=str)
         tlc.clean_workdir(self.wd)
         print("%s %s: states=%d transitions=%d traces=%d nontrivial=%d violations=%d known=%d wall=%.1fs" % (
